@@ -30,8 +30,15 @@ driver_open_device(struct Driver* driver,
     CHECK(Device_Ok == driver->open(driver, device_id, out));
 
     CHECK(*out);
-    CHECK(Device_Ok ==
-          driver->describe(driver, &out[0]->identifier, device_id));
+    if (Device_Ok !=
+        driver->describe(driver, &out[0]->identifier, device_id)) {
+        LOGE("Failed to describe device %d. Closing it.", (int)device_id);
+        // The device was opened: close it so it does not leak.
+        if (driver->close)
+            driver->close(driver, *out);
+        *out = 0;
+        goto Error;
+    }
     (*out)->driver = driver;
     return Device_Ok;
 Error:
